@@ -1254,7 +1254,12 @@ impl Fg {
             }
             4 => {
                 // read-only table lookup / bss store
-                let a = pg.lay.rodata_base + RODATA_LEN - 0x40 + 8 * pg.rng.below(8);
+                let mut a = pg.lay.rodata_base + RODATA_LEN - 0x40 + 8 * pg.rng.below(8);
+                if pg.rng.chance(1, 4) {
+                    // a load whose first bytes are the last bytes of the read-only segment (it straddles the segment end)
+                    a = pg.lay.rodata_base + RODATA_LEN - 1 - pg.rng.below(7);
+                    pg.feat("load-straddling-segment-end");
+                }
                 self.ld_global("RDX", a);
                 self.st_global(pg.lay.bss_base + 8 * pg.rng.below(16), r8("RDX"));
                 pg.feat("global-rw");
